@@ -8,7 +8,7 @@
     l1 <i> <thr> <tgt> <fnex> <modaux> FILE|raw <hex>
                                      → decoder view: "#i e …" per entry, "#i c …" per expanded command,
                                        "#i xerr" when the expansion panics, "#i done|err"
-    l2 <i> <thr> <tgt> <fnex> <modaux> <restore> <bulk> <par> <tdb> <dbmap> <now> <tick>
+    l2 <i> <thr> <tgt> <fnex> <modaux> <restore> <bulk> <par> <tdb> <dbmap> <now> <tick> <replaceHashTag 0|1>
        <dbBlack|-> <prefixBlack hex,..|-> <prefixWhite|-> <slotBlack a:b,..|-> <slotWhite|-> <nPre> (<db> <hexkey>)* FILE|raw <hex>
                                      → per-worker request log "#i w<k> <cmd> <args…>", "#i result ok|err"
 
@@ -569,7 +569,7 @@ def handle : List String → Option (List String)
     | some thr, some tgt, some fnex, some (bs, []) =>
       some (l1Lines tag { thr, failModAux := modaux == "1" } { tgtMajor := tgt, fnExists := fnex } bs)
     | _, _, _, _ => some [tag ++ "bad-desc"]
-  | "l2" :: i :: thr :: tgt :: fnex :: modaux :: restore :: bulk :: par :: tdb :: dbmap :: now :: tick ::
+  | "l2" :: i :: thr :: tgt :: fnex :: modaux :: restore :: bulk :: par :: tdb :: dbmap :: now :: tick :: rht ::
       dbb :: pb :: pw :: sb :: sw :: npre :: rest =>
     let tag := s!"#{i} "
     let flt : Option (List Int × List Bytes × List Bytes × List (Nat × Nat) × List (Nat × Nat)) := do
@@ -584,7 +584,7 @@ def handle : List String → Option (List String)
         match pBytes rest1 with
         | some (bs, []) =>
           let cfg : RCfg := { x := { tgtMajor := tgt, fnExists := fnex }, enableRestore := restore == "1",
-                              maxBulk := bulk, parallel := par, targetDb := tdb, dbMap := dbmap, now := now, tick := tick,
+                              maxBulk := bulk, parallel := par, targetDb := tdb, dbMap := dbmap, now := now, tick := tick, replaceHashTag := rht == "1",
                               filterDb := fun d => dbb.contains d, filterKey := keyFilter pb pw sb sw }
           let (logs, ok) := sendRdb { thr, failModAux := modaux == "1" } cfg pre bs
           if ok then
